@@ -259,3 +259,5 @@ for _pid in ('C01', 'C02', 'C03', 'C04', 'C05', 'C06', 'C07', 'C08', 'C09', 'C10
          f'{_pid}.z_inv a back-mapping built in a nested loop (inner value -> outer value) keeps every owner or guards against repeats; '
          f'{_pid}.z_coord the .x of a caller\'s qubit becomes a container index / payload position only in a function that compares it with 0; '
          f'{_pid}.z_none call sites of one `-> T | None` function (T sized) agree that absence is tested with `is None`, not by truthiness')
+more('C18', 'sibling agreement on the digit type', 'C18.n every 8-bit array of measured digits in cirq.sim is unsigned')
+more('C02', 'sibling agreement on the digit type', 'C02.o every 8-bit array of measured digits in cirq.sim is unsigned (terminal sampling and per-repetition recording agree for qudit digits >= 128)')
